@@ -104,21 +104,35 @@ int main(int argc, char **argv) {
         };
         plan.stages.push_back(st);
         // stage 2: grammar derivations and their deviations
-        const int gk = atoi(a.get("nodes", "3").c_str());
-        const int gd = atoi(a.get("dev", "1").c_str());
+        const int gk  = atoi(a.get("nodes", "3").c_str());
+        const int gd  = atoi(a.get("dev", "1").c_str());
+        const int gk0 = atoi(a.get("nodes0", "0").c_str()); // larger templates: base text and code-unit cuts only
         static tgen::Grammar      G;
         static std::vector<tgen::Tokens> bases;
+        static size_t             n_dev_bases;
         {
             tgen::Gen gen(G, gk);
             gen.run();
-            bases = gen.out;
+            bases       = gen.out;
+            n_dev_bases = bases.size();
+            if (gk0 > gk) {
+                tgen::Gen g0(G, gk0);
+                g0.run();
+                std::set<tgen::Tokens> have(bases.begin(), bases.end());
+                for (auto &b : g0.out) {
+                    if (!have.count(b)) {
+                        bases.push_back(b);
+                    }
+                }
+            }
         }
         plan.rule += " || W_k/Dev_d: all " + std::to_string(bases.size()) + " well-formed templates with <=" + std::to_string(gk) +
                      " nodes over 14 leaf tags (var/raw/math incl. %0 and INT64_MIN%-1/svar/inline-if) and 8 containers (if/else/else-if/elseif, "
                      "loop with set/sort/group/nested set), nesting <=4; each with every code-unit cut and every deviation of distance <=" +
                      std::to_string(gd) + " (delete a token, insert one of " + std::to_string(G.insertable.size()) +
-                     " tokens anywhere, swap neighbours, replace a closer)";
-        plan.bounds += " nodes<=" + std::to_string(gk) + " dev<=" + std::to_string(gd) + " bases=" + std::to_string(bases.size());
+                     " tokens anywhere, swap neighbours, replace a closer); plus " + std::to_string(bases.size() - n_dev_bases) +
+                     " templates with <=" + std::to_string(gk0) + " nodes with every code-unit cut";
+        plan.bounds += " nodes<=" + std::to_string(gk) + " dev<=" + std::to_string(gd) + " nodes0<=" + std::to_string(gk0) + " bases=" + std::to_string(n_dev_bases) + "+" + std::to_string(bases.size() - n_dev_bases);
         {
             vx::Stage s2;
             s2.name   = "grammar-deviations";
@@ -129,7 +143,7 @@ int main(int argc, char **argv) {
                 static Rig<char16_t> r16;
                 for (size_t bi = (size_t)chunk * 8; bi < bases.size() && bi < ((size_t)chunk + 1) * 8; bi++) {
                     ctx.acc.count("states");
-                    tgen::deviations(G, bases[bi], gd, true, [&](const Text &t) {
+                    tgen::deviations(G, bases[bi], bi < n_dev_bases ? gd : 0, true, [&](const Text &t) {
                         ctx.acc.count("transitions");
                         if (!ctx.next()) {
                             return;
